@@ -87,3 +87,17 @@ Proof.
     + intros d' k n L. rewrite L in A4. now apply String.eqb_eq in A4.
 Qed.
 Print Assumptions mocked_builtins_delegate.
+
+(** constants: the scalar case of guppy_object_from_py types, lowers and `builder.load`s a fresh
+    constant on every use (the translator fails closed on any other shape, e.g. a memo lookup),
+    and the per-trace state has no field in which converted constants could be remembered *)
+Theorem scalar_constants_fresh :
+  List.last scalar_case_steps "" = "load-fresh" /\ List.last from_py_patterns "" = "v" /\
+  forall f, In f tracing_state_fields -> In f ["ctx"; "dfg"; "node"; "unused_undroppable_objs"].
+Proof.
+  split; [reflexivity|]. split; [reflexivity|].
+  assert (F : Forall (fun f => In f ["ctx"; "dfg"; "node"; "unused_undroppable_objs"]) tracing_state_fields)
+    by (vm_compute; repeat constructor; simpl; tauto).
+  intros f H. rewrite Forall_forall in F. now apply F.
+Qed.
+Print Assumptions scalar_constants_fresh.
